@@ -222,16 +222,20 @@ Verdict(cfg, sc) ==
 
 (* machine state *)
 EInit == [phase |-> "Init", tls |-> FALSE, cert |-> "none", sent |-> <<>>, rbuf |-> "none",
-          parsed |-> FALSE, stalled |-> FALSE, bind |-> "none"]
+          parsed |-> FALSE, stalled |-> FALSE, bind |-> "none", held |-> 0]
+(* held: message IDs the client's bookkeeping holds (C13): the StartTLS exchange is an operation like any other - it takes *)
+(* an ID when the request goes out and has given it back by the time with_settings returns the connection                  *)
 
 Phases == {"Init", "Tcp", "StartTlsSent", "Handshake", "Ready", "Bound", "Failed", "Pending"}
 
 (* Events (records with field e):                                           *)
 (*   accept                      the server accepted the TCP connection      *)
 (*   clear(k)                    a cleartext LDAP PDU of kind k arrived      *)
-(*                               (k = "starttls" | "bind" | "other" | "junk")*)
+(*                               (k = "starttls" | "bind" | "unbind" | "other"  *)
+(*                               | "junk")                                   *)
 (*   hello                       a TLS ClientHello arrived                   *)
-(*   result(r, late)             with_settings returned (r = ok|err|pending) *)
+(*   result(r, late, held)       with_settings returned (r = ok|err|pending); *)
+(*                               held = IDs its handle holds (-1 not seen)   *)
 (*   bindseen(ch)                a BindRequest arrived, ch = "tls"|"clear"   *)
 (*   bindresult(rc)              what the client's bind returned (rc or -1)  *)
 (* Step(cfg, sc, s, ev) = set of successor states; {} = not a behaviour of   *)
@@ -245,7 +249,7 @@ StepTcp(cfg, sc, s, ev) ==
     [] ev.e = "clear" ->
          (* the only cleartext PDU ever: one StartTLS request, first thing on a StartTLS connection *)
          IF s.phase = "Tcp" /\ cfg.mode = "starttls" /\ ev.k = "starttls" /\ s.sent = <<>>
-         THEN {[s EXCEPT !.phase = "StartTlsSent", !.sent = Append(s.sent, "starttls"),
+         THEN {[s EXCEPT !.phase = "StartTlsSent", !.sent = Append(s.sent, "starttls"), !.held = 1,
                          !.rbuf = CASE sc.resp = "success" /\ sc.inj \in {"before", "with"} -> "framed"
                                     [] sc.resp = "success" /\ sc.inj = "after" -> "socket"
                                     [] OTHER -> "none",
@@ -266,7 +270,8 @@ StepTcp(cfg, sc, s, ev) ==
          ELSE CASE ev.r = "ok" ->
                      IF /\ s.phase = "Handshake" /\ sc.hs \in Certs
                         /\ (cfg.verify => Trust(cfg, sc.hs))
-                     THEN {[s EXCEPT !.phase = "Ready", !.tls = TRUE, !.cert = sc.hs, !.rbuf = "none"]}
+                        /\ ev.held <= 0                       \* the exchange is over: its ID is free again
+                     THEN {[s EXCEPT !.phase = "Ready", !.tls = TRUE, !.cert = sc.hs, !.rbuf = "none", !.held = 0]}
                      ELSE {}
                 [] ev.r = "err" ->
                      IF /\ s.phase \in {"Tcp", "StartTlsSent", "Handshake"}
@@ -282,12 +287,12 @@ StepTcp(cfg, sc, s, ev) ==
                 [] OTHER -> {}                                 \* a panic is never a behaviour
     [] ev.e = "bindseen" ->
          IF s.phase = "Ready" /\ ev.ch = "tls" /\ s.bind = "none"
-         THEN {[s EXCEPT !.bind = "sent"]}
+         THEN {[s EXCEPT !.bind = "sent", !.held = 1]}
          ELSE {}
     [] ev.e = "bindresult" ->
          (* the server answers invalidCredentials (49) inside TLS; the injected cleartext answer says 0 *)
          IF s.phase = "Ready" /\ s.bind = "sent" /\ ev.rc = 49
-         THEN {[s EXCEPT !.phase = "Bound"]}
+         THEN {[s EXCEPT !.phase = "Bound", !.held = 0]}
          ELSE {}
     [] OTHER -> {}
 
@@ -307,6 +312,12 @@ InjectedNeverParsed(cfg, s) ==
 
 TimeoutBoundsAll(cfg, s) ==
   s.phase = "Pending" => cfg.timeout = "none" /\ s.stalled
+
+(* C13 on the establishment path: a connection handed to the caller holds no ID except that of the caller's own operation *)
+EstablishedClean(s) ==
+  /\ s.held \in {0, 1}
+  /\ s.phase \in {"Ready", "Bound"} => s.held = IF s.bind = "sent" /\ s.phase = "Ready" THEN 1 ELSE 0
+  /\ s.phase \in {"Init", "Tcp"} => s.held = 0
 
 FaultsFail(cfg, sc, s) ==
   /\ sc.resp \in {"refuse", "garbage", "close", "hangup", "wrongid"} => s.phase \notin {"Handshake", "Ready", "Bound", "Pending"}
